@@ -161,9 +161,10 @@ def types(depth=2, leaves=None, collections=True, lambdas=False, big_maps=False,
     if depth <= 0:
         return base
     sub = types(depth - 1, leaves, collections, lambdas, False, contracts)
+    subb = types(depth - 1, leaves, collections, lambdas, big_maps, contracts) if big_maps else sub  # big maps also under pair / option / or
     key = comparable_types(min(depth - 1, 1), [l for l in leaves if l in COMPARABLE_LEAVES])
-    opts = [base, base, st.builds(lambda a: T("option", a), sub), st.builds(lambda a, b: T("or", a, b), sub, sub),
-            st.builds(lambda a, b: T("pair", a, b), sub, sub),
+    opts = [base, base, st.builds(lambda a: T("option", a), subb), st.builds(lambda a, b: T("or", a, b), subb, subb),
+            st.builds(lambda a, b: T("pair", a, b), subb, subb),
             st.builds(lambda ts: rv.pair_t(*ts), st.lists(sub, min_size=3, max_size=7))]
     if collections:
         opts += [st.builds(lambda a: T("list", a), sub), st.builds(lambda a: T("set", a), key),
